@@ -22,10 +22,14 @@ use crate::{
 };
 pub use alu::{AluInput, AluOutput, AluSelect};
 pub use board::{Board, InterruptSource, DAICR, DAISR, DASR};
+#[cfg(feature = "verif-hooks")]
+pub use bus::VerifBusSnapshot;
 pub use bus::{Bus, MISR};
 pub use instruction::{Instruction, InstructionRegister};
 pub use microprogram_ram::{MicroprogramRam, Word};
 pub(crate) use raw::Interrupt;
+#[cfg(feature = "verif-hooks")]
+pub use raw::verif;
 pub use raw::{RawMachine, Signals, State};
 pub use register::{Flags, Register, RegisterNumber};
 
